@@ -58,6 +58,13 @@ structure InvP (B R : List Name) (st : NState) : Prop where
   res : ∀ sc ∈ st.chain, ∀ r ∈ R, 1 ≤ sc.vars.cnt r
   notres : ∀ n ∈ visible st, n ∉ R
 
+/-- the invariant only looks at the context chain and the package-level names (robust against further bookkeeping
+    fields of `NState`) -/
+theorem InvP.congr {B R : List Name} {st st' : NState} (hc : st'.chain = st.chain) (hp : st'.pkgNames = st.pkgNames)
+    (hi : InvP B R st) : InvP B R st' := by
+  have hv : visible st' = visible st := by simp [visible, hc, hp]
+  exact ⟨by rw [hv]; exact hi.nodup, by rw [hc, hp]; exact hi.ok, by rw [hc]; exact hi.res, by rw [hv]; exact hi.notres⟩
+
 theorem cnt_bumpTo (nm n : Name) (v : Nat) (c : Scope) : (bumpTo nm v c).vars.cnt n = if nm = n then v else c.vars.cnt n := by
   simp [bumpTo, VarMap.cnt_set]
 
@@ -283,6 +290,7 @@ def opBase : Op → List Name
   | .pop => []
   | .req name _ => [encodeIdent name]
   | .ptr _ name => [encodeIdent (name ++ ptrSuffix)]
+  | .obj _ name _ => [encodeIdent name]
 
 /-- remembering a pointer-variable name touches neither `allVars` nor `localVars` -/
 theorem inv_recordPtr (B R : List Name) (v : Nat) (nm : Name) {c : List Scope} {p : List Name}
@@ -298,6 +306,24 @@ theorem inv_recordPtr (B R : List Name) (v : Nat) (nm : Name) {c : List Scope} {
         fun q hq b => hok.2.1 q hq b, hok.2.2⟩
     · intro s hs r' hr'
       simp only [recordPtr, List.mem_cons] at hs
+      rcases hs with rfl | hs
+      · exact hi.res sc (by simp) r' hr'
+      · exact hi.res s (by simp [hs]) r' hr'
+
+/-- remembering an object name touches neither `allVars` nor `localVars` -/
+theorem inv_recordObj (B R : List Name) (o : Nat) (nm : Name) {c : List Scope} {p : List Name}
+    (hi : InvP B R { chain := c, pkgNames := p }) : InvP B R { chain := recordObj o nm c, pkgNames := p } := by
+  cases c with
+  | nil => exact hi
+  | cons sc r =>
+    have hv : visible { chain := recordObj o nm (sc :: r), pkgNames := p } = visible { chain := sc :: r, pkgNames := p } := by
+      simp [visible, recordObj, chainLocals]
+    refine ⟨by rw [hv]; exact hi.nodup, ?_, ?_, by rw [hv]; exact hi.notres⟩
+    · have hok := hi.ok
+      exact ⟨fun w hw b k hb hwk => hok.1 w (by simpa [recordObj, chainLocals] using hw) b k hb hwk,
+        fun q hq b => hok.2.1 q hq b, hok.2.2⟩
+    · intro s hs r' hr'
+      simp only [recordObj, List.mem_cons] at hs
       rcases hs with rfl | hs
       · exact hi.res sc (by simp) r' hr'
       · exact hi.res s (by simp [hs]) r' hr'
@@ -319,7 +345,7 @@ theorem inv_step_plain (B R : List Name) (hR : ∀ r ∈ R, 36 ∉ r) (hB : Rend
         simp [hn] at h
         subst h
         have := (inv_req_plain B R hR hB (inv_copy_plain B R hi hch) (hop _ (by simp [opBase])) hn).1
-        simpa using this
+        exact InvP.congr (hi := this) (by simp) (by simp)
   | pop =>
     simp only [stepOp] at h
     cases hch : st.chain with
@@ -338,11 +364,13 @@ theorem inv_step_plain (B R : List Name) (hR : ∀ r ∈ R, 36 ∉ r) (hB : Rend
           apply List.Sublist.append_left
           show (chainLocals (p :: r)).Sublist (top.locals ++ chainLocals (p :: r))
           exact List.sublist_append_right _ _
-        refine ⟨hi.nodup.sublist hsub, hok.2.2, ?_, ?_⟩
-        · intro sc hsc
-          exact hi.res sc (by rw [hch]; exact List.mem_cons_of_mem _ hsc)
-        · intro n hn
-          exact hi.notres n (hsub.subset hn)
+        have hres : InvP B R { chain := p :: r, pkgNames := st.pkgNames } := by
+          refine ⟨hi.nodup.sublist hsub, hok.2.2, ?_, ?_⟩
+          · intro sc hsc
+            exact hi.res sc (by rw [hch]; exact List.mem_cons_of_mem _ hsc)
+          · intro n hn
+            exact hi.notres n (hsub.subset hn)
+        exact InvP.congr (hi := hres) (by rfl) (by rfl)
   | req name pk =>
     simp only [stepOp] at h
     cases hn : newVariable false name pk st.chain with
@@ -351,7 +379,32 @@ theorem inv_step_plain (B R : List Name) (hR : ∀ r ∈ R, 36 ∉ r) (hB : Rend
       obtain ⟨c, nm⟩ := p
       simp [hn] at h
       subst h
-      exact (inv_req_plain B R hR hB hi (hop _ (by simp [opBase])) hn).1
+      exact InvP.congr (hi := (inv_req_plain B R hR hB hi (hop _ (by simp [opBase])) hn).1) (by rfl) (by rfl)
+  | obj o name pk =>
+    simp only [stepOp] at h
+    cases hl : (if pk = true then st.pkgObjs.lookup o else lookupObj o st.chain) with
+    | some nm0 =>
+      simp [hl] at h
+      subst h
+      exact hi
+    | none =>
+      simp only [hl] at h
+      cases hn : newVariable false name pk st.chain with
+      | none => simp [hn] at h
+      | some p =>
+        obtain ⟨c, nm⟩ := p
+        simp only [hn] at h
+        have hq := (inv_req_plain B R hR hB hi (hop _ (by simp [opBase])) hn).1
+        cases pk with
+        | true =>
+          simp at h
+          subst h
+          exact InvP.congr (hi := hq) (by rfl) (by simp)
+        | false =>
+          simp at h
+          subst h
+          simp only [Bool.false_eq_true, if_false] at hq
+          exact InvP.congr (hi := inv_recordObj B R o nm hq) (by rfl) (by rfl)
   | ptr v name =>
     simp only [stepOp, varPtrName, Bool.false_eq_true, if_false] at h
     cases hl : lookupPtr v st.chain with
@@ -369,7 +422,7 @@ theorem inv_step_plain (B R : List Name) (hR : ∀ r ∈ R, 36 ∉ r) (hB : Rend
         subst h
         have := (inv_req_plain B R hR hB hi (hop _ (by simp [opBase])) hn).1
         simp only [Bool.false_eq_true, if_false] at this
-        exact inv_recordPtr B R v nm this
+        exact InvP.congr (hi := inv_recordPtr B R v nm this) (by rfl) (by rfl)
 
 theorem inv_run_plain (B R : List Name) (hR : ∀ r ∈ R, 36 ∉ r) (hB : RenderInj B) : ∀ (ops : List Op) (st st' : NState),
     InvP B R st → (∀ op ∈ ops, ∀ b ∈ opBase op, b ∈ B) → runOps false st ops = some st' → InvP B R st'
